@@ -92,7 +92,11 @@ func windowScenario(c *sup.Ctx, r *rng.R, props []string) {
 	defer b.Close()
 	n := 0
 	for _, pre := range []string{"live", "absent", "tomb"} {
-		for _, rival := range conc.RivalKinds {
+		rivals := conc.RivalKinds
+		if pre == "live" {
+			rivals = append(append([]string(nil), rivals...), conc.LiveRivalKinds...)
+		}
+		for _, rival := range rivals {
 			type run struct {
 				name string
 				f    func(key string) (conc.WindowResult, string)
